@@ -390,6 +390,7 @@ package authf
 //@   sites ).Read = 2
 //@   site ).Skip#0 assert [C04] $1 == 1 && $2 == true
 //@   sites ).Skip = 1
+//@   site ).Read#1 assert [C04] $1 == addr(st.VObjName[i0])
 //@   safety [C05]
 //
 //@ func (*TokenRequest).ReadBlock
@@ -451,6 +452,8 @@ package authf
 //@   sites ).Read = 4
 //@   site ).Skip#0 assert [C04] $1 == 8 && $2 == 2 && $3 == true
 //@   sites ).Skip = 1
+//@   site ).Read#2 assert [C04] $1 == addr(k0)
+//@   site ).Read#3 assert [C04] $1 == addr(v0)
 //@   safety [C05]
 //
 //@ func (*TokenResponse).ReadBlock
@@ -474,6 +477,8 @@ package authf
 //@   site ).Write#3 assert [C03] $2 == 0
 //@   site ).Write#4 assert [C03] $2 == 1
 //@   sites ).Write = 5
+//@   site ).Write#3 assert [C03] $1 == k1
+//@   site ).Write#4 assert [C03] $1 == v1
 //
 //@ func (*ApplyTokenRequest).ResetDefault
 //@   requires st != nil
